@@ -192,6 +192,7 @@ fn exec_plan(id: &str, plan: &Value, ctx: &mut Ctx) {
         spec.modify_address_space = plan["can_modify"].as_bool().unwrap_or(true);
         let server = l2::build_server(&spec);
         let n = plan["nodes"].as_u64().unwrap_or(5);
+        let orphans = plan["orphans"].as_u64().unwrap_or(0);
         let objects: NodeId = ObjectId::ObjectsFolder.into();
         let mut universe = vec![objects.clone()];
         let mut nodes = BTreeSet::new();
@@ -203,8 +204,13 @@ fn exec_plan(id: &str, plan: &Value, ctx: &mut Ctx) {
             let ns = a.register_namespace("urn:sim:nm").unwrap_or(2);
             for i in 0..n {
                 let node = NodeId::new(ns, format!("n{}", i));
-                ObjectBuilder::new(&node, format!("n{}", i), format!("n{}", i)).organized_by(objects.clone()).insert(&mut a);
-                refs.insert((key(&objects), 35, key(&node)));
+                if i >= n.saturating_sub(orphans) {
+                    // a node nothing refers to yet (its first referrer comes from the plan)
+                    ObjectBuilder::new(&node, format!("n{}", i), format!("n{}", i)).insert(&mut a);
+                } else {
+                    ObjectBuilder::new(&node, format!("n{}", i), format!("n{}", i)).organized_by(objects.clone()).insert(&mut a);
+                    refs.insert((key(&objects), 35, key(&node)));
+                }
                 nodes.insert(key(&node));
                 universe.push(node);
             }
@@ -683,7 +689,8 @@ impl Scenario for Nm {
                         _ => steps.push(json!({"op": "del_ref", "a": 0, "b": b, "ty": 0, "forward": true, "via": via, "sess": rng.below(2)})),
                     }
                 }
-                json!({"nodes": n, "sessions": rng.urange(1, 2), "tseed": rng.next_u64() >> 12, "steps": steps})
+                let orphans = if rng.chance(0.3) { rng.urange(1, n as usize - 1) } else { 0 };
+                json!({"nodes": n, "orphans": orphans, "sessions": rng.urange(1, 2), "tseed": rng.next_u64() >> 12, "steps": steps})
             }
             "C29" => {
                 let n = rng.urange(3, 6) as u64;
@@ -703,11 +710,20 @@ impl Scenario for Nm {
                     steps.push(json!({"op": "add_ref", "a": a, "b": b, "ty": 1, "forward": true, "via": "app"}));
                     steps.push(json!({"op": "add_ref", "a": b, "b": a, "ty": *rng.pick(&[1u64, 2]), "forward": true, "via": "app"}));
                 }
+                if rng.chance(0.35) {
+                    // a history before the delete: some of the references are removed again first
+                    let k = rng.urange(1, 3);
+                    for _ in 0..k {
+                        let e = steps[rng.below(steps.len() as u64) as usize].clone();
+                        steps.push(json!({"op": "del_ref", "a": e["a"], "b": e["b"], "ty": e["ty"], "forward": true, "bidir": rng.chance(0.3), "via": if rng.chance(0.5) { "app" } else { "service" }, "sess": 0}));
+                    }
+                }
                 let dels = rng.urange(1, 2);
                 for _ in 0..dels {
                     steps.push(json!({"op": "del_node", "a": 1 + rng.below(n), "target_refs": true, "via": if rng.chance(0.5) { "app" } else { "service" }}));
                 }
-                json!({"nodes": n, "sessions": 1, "tseed": rng.next_u64() >> 12, "steps": steps})
+                let orphans = if rng.chance(0.3) { rng.urange(1, n as usize - 1) } else { 0 };
+                json!({"nodes": n, "orphans": orphans, "sessions": 1, "tseed": rng.next_u64() >> 12, "steps": steps})
             }
             _ => {
                 let n = rng.urange(2, 4) as u64;
